@@ -530,8 +530,9 @@ void block_approx_ideal_restriction_pass2(const I Rp[], const int Rp_size,
                     rhs[i] = b0[b_ind0 + i];
                 }
 
-                // Solve system using GMRES
-                dense_GMRES(&A0[0], &rhs[0], &b0[b_ind0], num_DOFs,
+                // Solve system using GMRES (on a copy: dense_GMRES rescales its matrix in place)
+                std::vector<T> A0_copy(A0);
+                dense_GMRES(&A0_copy[0], &rhs[0], &b0[b_ind0], num_DOFs,
                             is_col_major, maxiter, precondition);
             }
         }
